@@ -35,6 +35,37 @@ class Horizon(Exception):
     """Too many scheduling points: livelock guard."""
 
 
+class PipeStall(Exception):
+    """A task blocked writing to its stdout/stderr because Conductor stopped reading the pipe."""
+
+
+def _write_all(fd, chunk, timeout=3.0):
+    """Write like a child process would (blocking), but give up when nobody drains the pipe."""
+    import select
+    import time as _t
+    view = memoryview(chunk)
+    os.set_blocking(fd, False)
+    deadline = _t.time() + timeout
+    try:
+        while len(view):
+            try:
+                n = os.write(fd, view)
+                view = view[n:]
+                deadline = _t.time() + timeout
+            except BlockingIOError:
+                left = deadline - _t.time()
+                if left <= 0:
+                    raise PipeStall("task blocked for %.0f s writing %d remaining bytes: its pipe is not being read" % (timeout, len(view)))
+                select.select([], [fd], [], min(left, 0.5))
+            except BrokenPipeError:
+                return  # reader closed: a real child would get SIGPIPE/EPIPE
+    finally:
+        try:
+            os.set_blocking(fd, True)
+        except OSError:
+            pass
+
+
 def st_exit(code):
     return (code & 0xFF) << 8
 
@@ -149,19 +180,24 @@ class VK:
     def _child_exit_effects(self, proc):
         b = proc.behaviour or {}
         try:
-            for fd, data in ((proc.out_fd, b.get("stdout", b"")), (proc.err_fd, b.get("stderr", b""))):
+            if b.get("writes"):
+                # interleaved writes: [("o"|"e", bytes), ...] in this order
+                for which, chunk in b["writes"]:
+                    fd = proc.out_fd if which == "o" else proc.err_fd
+                    if fd is None:
+                        continue
+                    _write_all(fd, chunk)
+            for attr, data in (("out_fd", b.get("stdout", b"")), ("err_fd", b.get("stderr", b""))):
+                fd = getattr(proc, attr)
                 if fd is None:
                     continue
                 try:
                     chunks = data if isinstance(data, (list, tuple)) else [data]
                     for chunk in chunks:
-                        view = memoryview(chunk)
-                        while len(view):
-                            n = os.write(fd, view)
-                            view = view[n:]
+                        _write_all(fd, chunk)
                 finally:
                     os.close(fd)
-            proc.out_fd = proc.err_fd = None
+                    setattr(proc, attr, None)
             out = proc.env.get("COND_OUT") if proc.env else None
             if out and os.WIFEXITED(proc.status) and os.WEXITSTATUS(proc.status) == 0 and os.path.isdir(out):
                 if not b.get("quiet"):
@@ -178,6 +214,16 @@ class VK:
                     path = os.path.join(out, rel)
                     os.makedirs(os.path.dirname(path), exist_ok=True)
                     os.symlink(target, path)
+        except PipeStall as ex:
+            for attr in ("out_fd", "err_fd"):
+                fd = getattr(proc, attr)
+                if fd is not None:
+                    try:
+                        os.close(fd)
+                    except OSError:
+                        pass
+                    setattr(proc, attr, None)
+            self._fail(ex)
         except OSError as ex:  # pragma: no cover
             self._fail(HarnessError("child exit effects failed: %r" % (ex,)))
 
